@@ -45,12 +45,22 @@ Print Assumptions C03_former_gap_closed.
 (* exactly one outcome and not live, for an idle stream that fired requestheaders and whose two sides are finished:
    the client side delivered its end of message / protocol error (or the stream is errored), and if the request
    went upstream the server side delivered its end / error (or the flow was aborted towards the server) *)
-Theorem C03_one_outcome : forall o s, sreach o s ->
-  pc s = None -> tunnel s = false -> crashed s = false -> venv s = false ->
+(* fws s = flow.websocket is set.  Among idle, non-tunnel streams that happens only when an addon replaced the 101
+   response of a WebSocket handshake in the response hook (finding still-live-replaced-101): C03_one_outcome_refuted
+   is that run, C03_one_outcome_partial the statement under the complement. *)
+Theorem C03_one_outcome_partial : forall o s, sreach o s ->
+  pc s = None -> tunnel s = false -> crashed s = false -> venv s = false -> fws s = false ->
   mem HkReqHeaders (hooks s) = true -> closed_s s = true ->
   xorb (mem HkResponse (hooks s)) (mem HkError (hooks s)) = true /\ live s = false.
 Proof. exact T_outcome. Qed.
-Print Assumptions C03_one_outcome.
+Print Assumptions C03_one_outcome_partial.
+
+Theorem C03_one_outcome_refuted :
+  let s := run_stream gap_opts ws_run in
+  pc s = None /\ tunnel s = false /\ crashed s = false /\ venv s = false /\ closed_s s = true
+  /\ hooks s = [HkReqHeaders; HkRequest; HkRespHeaders; HkResponse] /\ fws s = true /\ live s = true.
+Proof. exact T_live_refuted. Qed.
+Print Assumptions C03_one_outcome_refuted.
 
 (* the streams of the system model (any options, policy, connect outcomes, schedule) are such streams *)
 Theorem C03_system_streams : forall e ops, Forall (fun p => sreach (e_opts e) (fst p)) (streams (run_ops e ops)).
@@ -58,14 +68,14 @@ Proof. exact run_ops_reach. Qed.
 Print Assumptions C03_system_streams.
 
 (* hypotheses are satisfiable: a plain GET exchange ends idle, closed, with exactly the response outcome *)
-Definition nv_req : head := mkHead [] MGet HNone 0 true true false false 0.
-Definition nv_resp : head := mkHead [] MGet (HLen 2) 0 true true false false 200.
+Definition nv_req : head := mkHead [] MGet HNone 0 true true false false 0 false.
+Definition nv_resp : head := mkHead [] MGet (HLen 2) 0 true true false false 200 false.
 Definition nv_run : list sstep :=
   [SIn (IEvent (EReqHeaders nv_req true)); SIn IHookDone; SIn (IEvent EReqEOM); SIn IHookDone; SIn (IConnDone (Some 1%N));
    SIn (IEvent (ERespHeaders nv_resp false)); SIn IHookDone; SIn (IEvent (ERespData [x6f; x6b])); SIn (IEvent ERespEOM); SIn IHookDone].
 Theorem C03_nonvacuous :
   let s := run_stream gap_opts nv_run in
-  sreach gap_opts s /\ pc s = None /\ tunnel s = false /\ crashed s = false /\ venv s = false
+  sreach gap_opts s /\ pc s = None /\ tunnel s = false /\ crashed s = false /\ venv s = false /\ fws s = false
   /\ closed_s s = true /\ hooks s = [HkReqHeaders; HkRequest; HkRespHeaders; HkResponse] /\ live s = false.
 Proof. split; [apply run_stream_reach | vm_compute; repeat split]. Qed.
 Print Assumptions C03_nonvacuous.
